@@ -151,6 +151,8 @@ def build(ch, allow_far=False):
         if ch.choose('end-planes', ['perpendicular', 'oblique']) == 'oblique':
             mnorm = axis + 0.2 * (Q @ np.array([1.0, 0.0, 0.0])) - 0.1 * (Q @ np.array([0.0, 1.0, 0.0]))
             base = [b - axis * float(mnorm @ b) for b in base]       # mnorm @ axis = 1
+            # the arrangement is no longer one of prisms (no fast path for the witnesses): 2 x 2 elements per storey
+            rng = [(0, 1), (-1, 0)]
         d.add_surface(snum, 'p', list(mnorm) + [zhi]); d.add_surface(snum + 1, 'p', list(mnorm) + [zlo])
         if top_first:
             lits += [-snum, snum + 1]; base.append(axis * (zhi - zlo))
